@@ -1,5 +1,6 @@
 import BeyondVerif.Model.FormsR
 import BeyondVerif.Lemmas.Angle
+import BeyondVerif.Lemmas.Hyp
 import BeyondVerif.Generated.FormTables
 import BeyondVerif.Props.C20
 import Mathlib.Tactic.LinearCombination
@@ -137,25 +138,41 @@ theorem circ_kepl_circ (mu a ex ey i Ω u : ℝ) (h : ex ^ 2 + ey ^ 2 ≠ 0) :
   obtain ⟨h1, h2⟩ := atan2_div_norm h
   simp only [keplToCirc, app6, circToKepl, powi, sqrt, cos, sin, h1, h2, add_sub_cancel]
 
-/-- mean → mean-circular → mean (`e > 0`): a, e, i, Ω exactly; ω and M as the same points of the circle.
-For an ellipse that is the same orbit state; for a hyperbola `M` is *not* an angle — see `Witness/C01.lean` and the
-known finding `mean-circular-hyperbolic-M-mod-2pi`. -/
-theorem mean_mcirc_mean (mu a e i Ω ω M : ℝ) (he : 0 < e) :
+/-- mean → mean-circular → mean, ellipse (`0 < e < 1`): a, e, i, Ω exactly; ω and M as the same points of the circle
+(for an ellipse that is the same orbit state). -/
+theorem mean_mcirc_mean (mu a e i Ω ω M : ℝ) (he : 0 < e) (h1 : e < 1) :
     ∃ ω' M', app6 mcircToMean mu (meanToMcirc mu a e i Ω ω M) = [a, e, i, Ω, ω', M'] ∧ AngEq ω' ω ∧ AngEq M' M ∧
       (-Real.pi < ω ∧ ω ≤ Real.pi → ω' = ω) := by
   refine ⟨atan2 (Real.sin ω) (Real.cos ω), fmod (ω + M) (2 * pi) - atan2 (Real.sin ω) (Real.cos ω), ?_, atan2_sin_cos ω, ?_, ?_⟩
-  · simp only [meanToMcirc, app6, mcircToMean, powi, sqrt, cos, sin, sqrt_ecs e ω he.le, mul_div_cancel_left₀ _ he.ne']
+  · simp only [meanToMcirc, app6, mcircToMean, powi, sqrt, cos, sin, sqrt_ecs e ω he.le, mul_div_cancel_left₀ _ he.ne', if_pos h1]
   · have := (fmod_two_pi_angEq (ω + M)).sub (atan2_sin_cos ω)
     simpa using this
   · intro hω
     have hm := atan2_mem (Real.cos ω) (Real.sin ω)
     exact AngEq.eq_of_mem_Ioc (lo := -Real.pi) (atan2_sin_cos ω) ⟨hm.1, by linarith [hm.2]⟩ ⟨hω.1, by linarith [hω.2]⟩
 
-/-- mean-circular → mean → mean-circular (`(ex, ey) ≠ 0`): all six numbers exactly, α reduced to `[0, 2π)`. -/
+/-- **mean → mean-circular → mean, hyperbola (`e ≥ 1`): the mean anomaly is returned EXACTLY** (it is not an angle;
+false before fix 3686717, which is why this statement was only available modulo 2π), ω as the same point of the circle. -/
+theorem mean_mcirc_mean_hyperbolic (mu a e i Ω ω M : ℝ) (h1 : 1 ≤ e) :
+    ∃ ω', app6 mcircToMean mu (meanToMcirc mu a e i Ω ω M) = [a, e, i, Ω, ω', M] ∧ AngEq ω' ω := by
+  have he : 0 < e := by linarith
+  have hne1 : ¬ e < 1 := not_lt.mpr h1
+  have hm := fmod_mem (x := ω) two_pi_pos
+  have hf : fmod (atan2 (Real.sin ω) (Real.cos ω)) (2 * pi) = fmod ω (2 * pi) :=
+    fmod_two_pi_eq_of_angEq ((atan2_sin_cos ω).trans (fmod_two_pi_angEq ω).symm) ⟨hm.1, by simpa using hm.2⟩
+  refine ⟨atan2 (Real.sin ω) (Real.cos ω), ?_, atan2_sin_cos ω⟩
+  simp only [meanToMcirc, app6, mcircToMean, powi, sqrt, cos, sin, sqrt_ecs e ω he.le, mul_div_cancel_left₀ _ he.ne', if_neg hne1, hf,
+    add_sub_cancel_left]
+
+/-- mean-circular → mean → mean-circular (`(ex, ey) ≠ 0`): all six numbers exactly; α reduced to `[0, 2π)` for an
+ellipse, untouched for a hyperbola. -/
 theorem mcirc_mean_mcirc (mu a ex ey i Ω α : ℝ) (h : ex ^ 2 + ey ^ 2 ≠ 0) :
-    app6 meanToMcirc mu (mcircToMean mu a ex ey i Ω α) = [a, ex, ey, i, Ω, fmod α (2 * pi)] := by
+    app6 meanToMcirc mu (mcircToMean mu a ex ey i Ω α)
+      = [a, ex, ey, i, Ω, if Real.sqrt (ex ^ 2 + ey ^ 2) < 1 then fmod α (2 * pi) else α] := by
   obtain ⟨h1, h2⟩ := atan2_div_norm h
-  simp only [meanToMcirc, app6, mcircToMean, powi, sqrt, cos, sin, h1, h2, add_sub_cancel]
+  by_cases hc : Real.sqrt (ex ^ 2 + ey ^ 2) < 1
+  · simp only [meanToMcirc, app6, mcircToMean, powi, sqrt, cos, sin, h1, h2, add_sub_cancel, if_pos hc]
+  · simp only [meanToMcirc, app6, mcircToMean, powi, sqrt, cos, sin, h1, h2, add_sub_cancel, if_neg hc]
 
 /-- mean → TLE → mean is the identity for `a > 0` (`n = √(µ/a³)`, `a = (µ/n²)^(1/3)`). -/
 theorem mean_tle_mean (mu a e i Ω ω M : ℝ) (hmu : 0 < mu) (ha : 0 < a) :
@@ -414,35 +431,64 @@ theorem m2eLoop_exit (fuel : Nat) (e M X X1 R : ℝ) (hX : X1 = m2eNext X e M) (
       · rw [← hX]; exact (Option.some.inj h).symm
       · rw [← Option.some.inj h]; exact not_le.mp hc
 
+/-- `Form.M2E` = reduce, iterate, add back: a returned value is `finish (next X)` for an iterate `X` of the loop run
+on the reduced mean anomaly, with `|next X − X| < tol`. -/
 theorem m2e_exit (fuel : Nat) (e M R : ℝ) (h : m2e fuel e M = some R) :
-    ∃ Xp, R = m2eNext Xp e M ∧ |R - Xp| < m2eTol :=
-  m2eLoop_exit fuel e M _ _ R rfl h
+    ∃ X1 Xp, R = m2eFinish e X1 (m2eExtra e M) ∧ X1 = m2eNext Xp e (m2eReduced e M) ∧ |X1 - Xp| < m2eTol := by
+  simp only [m2e, Option.map_eq_some_iff] at h
+  obtain ⟨X1, hl, rfl⟩ := h
+  obtain ⟨Xp, h1, h2⟩ := m2eLoop_exit fuel e _ _ _ X1 rfl hl
+  exact ⟨X1, Xp, rfl, h1, h2⟩
 
 theorem m2eTol_pos : (0 : ℝ) < m2eTol := by unfold m2eTol; norm_num
+theorem m2eTol_le : m2eTol ≤ (1 : ℝ) := by unfold m2eTol; norm_num
 
-/-- **Kepler-equation residual, ellipse** (`0 ≤ e < 1`), for every fuel and whatever the start branch: if `M2E`
-returns `E` then `|E − e sin E − M| < 2·tol·(1+e)`. -/
+/-- ellipse: the anomaly the loop works on is `M` minus a whole number `k` of turns, that number of turns is added back -/
+theorem m2e_reduction_elliptic (e M : ℝ) (h1 : e < 1) :
+    ∃ k : ℤ, m2eExtra e M = k * (2 * Real.pi) ∧ m2eReduced e M = M - k * (2 * Real.pi) ∧
+      -Real.pi ≤ m2eReduced e M ∧ m2eReduced e M < Real.pi := by
+  refine ⟨⌊(M + Real.pi) / (2 * Real.pi)⌋, ?_, ?_, ?_, ?_⟩
+  · simp only [m2eExtra, if_pos h1, floorR, pi]; ring
+  · simp only [m2eReduced, if_pos h1, floorR, pi]; ring
+  · simp only [m2eReduced, if_pos h1, floorR, pi]
+    have := Int.floor_le ((M + Real.pi) / (2 * Real.pi))
+    have hp := Real.pi_pos
+    have h3 : (M + Real.pi) / (2 * Real.pi) * (2 * Real.pi) = M + Real.pi := by field_simp
+    nlinarith
+  · simp only [m2eReduced, if_pos h1, floorR, pi]
+    have := Int.lt_floor_add_one ((M + Real.pi) / (2 * Real.pi))
+    have hp := Real.pi_pos
+    have h3 : (M + Real.pi) / (2 * Real.pi) * (2 * Real.pi) = M + Real.pi := by field_simp
+    nlinarith
+
+/-- **Kepler-equation residual, ellipse** (`0 ≤ e < 1`), for every fuel, every `M` (any number of revolutions) and
+whatever the start branch: if `M2E` returns `E` then `|E − e sin E − M| < 2·tol·(1+e)`. -/
 theorem m2e_residual_elliptic (fuel : Nat) (e M R : ℝ) (h0 : 0 ≤ e) (h1 : e < 1) (h : m2e fuel e M = some R) :
     |R - e * Real.sin R - M| < 2 * m2eTol * (1 + e) := by
-  obtain ⟨X, hR, hd⟩ := m2e_exit fuel e M R h
+  obtain ⟨Y, X, hR, hY, hd⟩ := m2e_exit fuel e M R h
+  obtain ⟨k, hk, hMr, _, _⟩ := m2e_reduction_elliptic e M h1
+  set Mr := m2eReduced e M
   have hD : 0 < 1 - e * Real.cos X := by nlinarith [Real.neg_one_le_cos X, Real.cos_le_one X]
   have hD2 : 1 - e * Real.cos X ≤ 1 + e := by nlinarith [Real.neg_one_le_cos X, Real.cos_le_one X]
-  simp only [m2eNext, if_pos h1, cos, sin] at hR
-  have hstep : (R - X) * (1 - e * Real.cos X) = M - X + e * Real.sin X := by
-    rw [hR]; field_simp; ring
-  have hres : |M - X + e * Real.sin X| < m2eTol * (1 + e) := by
+  simp only [m2eNext, if_pos h1, cos, sin] at hY
+  simp only [m2eFinish, if_pos h1, hk] at hR
+  have hstep : (Y - X) * (1 - e * Real.cos X) = Mr - X + e * Real.sin X := by
+    rw [hY]; field_simp; ring
+  have hres : |Mr - X + e * Real.sin X| < m2eTol * (1 + e) := by
     rw [← hstep, abs_mul, abs_of_pos hD]
-    calc |R - X| * (1 - e * Real.cos X) ≤ |R - X| * (1 + e) := by gcongr
+    calc |Y - X| * (1 - e * Real.cos X) ≤ |Y - X| * (1 + e) := by gcongr
       _ < m2eTol * (1 + e) := by gcongr
-  have hsin := Real.abs_sin_sub_sin_le R X
-  have key : R - e * Real.sin R - M = (R - X) - e * (Real.sin R - Real.sin X) - (M - X + e * Real.sin X) := by ring
+  have hsin := Real.abs_sin_sub_sin_le Y X
+  have hsR : Real.sin R = Real.sin Y := by rw [hR, Real.sin_add_int_mul_two_pi]
+  have key : R - e * Real.sin R - M = (Y - X) - e * (Real.sin Y - Real.sin X) - (Mr - X + e * Real.sin X) := by
+    rw [hsR, hR, hMr]; ring
   rw [key]
-  have h3 : |e * (Real.sin R - Real.sin X)| ≤ e * |R - X| := by
+  have h3 : |e * (Real.sin Y - Real.sin X)| ≤ e * |Y - X| := by
     rw [abs_mul, abs_of_nonneg h0]; gcongr
   have hT := m2eTol_pos
-  calc |R - X - e * (Real.sin R - Real.sin X) - (M - X + e * Real.sin X)|
-      ≤ |R - X - e * (Real.sin R - Real.sin X)| + |M - X + e * Real.sin X| := abs_sub _ _
-    _ ≤ |R - X| + |e * (Real.sin R - Real.sin X)| + |M - X + e * Real.sin X| := by gcongr; exact abs_sub _ _
+  calc |Y - X - e * (Real.sin Y - Real.sin X) - (Mr - X + e * Real.sin X)|
+      ≤ |Y - X - e * (Real.sin Y - Real.sin X)| + |Mr - X + e * Real.sin X| := abs_sub _ _
+    _ ≤ |Y - X| + |e * (Real.sin Y - Real.sin X)| + |Mr - X + e * Real.sin X| := by gcongr; exact abs_sub _ _
     _ < 2 * m2eTol * (1 + e) := by nlinarith
 
 /-- **mean → eccentric → mean, ellipse**: the mean anomaly is reproduced within `2·tol·(1+e)` (tol = 1e-8 in the source). -/
@@ -456,7 +502,7 @@ theorem mean_ecc_mean_elliptic (fuel : Nat) (mu a e i Ω ω M : ℝ) (h0 : 0 ≤
 
 /-- **eccentric → mean → eccentric, ellipse**: Kepler's function `E ↦ E − e sin E` is strictly increasing with slope
 at least `1 − e`, so the eccentric anomaly returned by the solver is within `2·tol·(1+e)/(1−e)` of the original one
-— for every `E` (also negative or beyond 2π), every fuel, every start branch. -/
+— for every `E` (also negative or many revolutions away), every fuel, every start branch. -/
 theorem ecc_mean_ecc_elliptic (fuel : Nat) (mu a e i Ω ω E : ℝ) (h0 : 0 ≤ e) (h1 : e < 1) (c : List ℝ)
     (h : (match eccToMean mu a e i Ω ω E with
           | [a, e, i, Ω, ω, M] => meanToEcc fuel mu a e i Ω ω M
@@ -473,27 +519,74 @@ theorem ecc_mean_ecc_elliptic (fuel : Nat) (mu a e i Ω ω E : ℝ) (h0 : 0 ≤ 
   rw [key] at hres
   have h3 : |e * (Real.sin R - Real.sin E)| ≤ e * |R - E| := by
     rw [abs_mul, abs_of_nonneg h0]; gcongr
-  have h4 : |R - E| - |e * (Real.sin R - Real.sin E)| ≤ |R - E - e * (Real.sin R - Real.sin E)| := by
-    have := abs_sub_abs_le_abs_sub (R - E) (e * (Real.sin R - Real.sin E))
-    exact this
+  have h4 : |R - E| - |e * (Real.sin R - Real.sin E)| ≤ |R - E - e * (Real.sin R - Real.sin E)| :=
+    abs_sub_abs_le_abs_sub (R - E) (e * (Real.sin R - Real.sin E))
   nlinarith
 
-/-- hyperbolic analogue (partial): what the exit test of the loop gives for `e ≥ 1` — the returned value is one Newton
-step `H + (M − e sinh H + H)/(e cosh H − 1)` away from an iterate `H` with `|step| < tol`, hence
-`|M − e sinh H + H| < tol·(e cosh H − 1)` at that iterate. A bound at the *returned* value needs a bound on `cosh`
-along the step and is not proved. -/
-theorem m2e_residual_hyperbolic_partial (fuel : Nat) (e M R : ℝ) (h1 : 1 < e) (h : m2e fuel e M = some R) :
-    ∃ H, R = H + (M - e * Real.sinh H + H) / (e * Real.cosh H - 1) ∧ |R - H| < m2eTol ∧
-      |M - e * Real.sinh H + H| < m2eTol * (e * Real.cosh H - 1) := by
-  obtain ⟨X, hR, hd⟩ := m2e_exit fuel e M R h
+/-- **Kepler-equation residual, hyperbola** (`e > 1`), at the *returned* value, for every fuel and whatever the start
+branch (incl. the asymptotic start of fix 31f549a): `|e sinh H − H − M| < 8·e·cosh H·tol²` — the Newton step cancels
+the first-order term exactly, what is left is second order in the last step. -/
+theorem m2e_residual_hyperbolic (fuel : Nat) (e M R : ℝ) (h1 : 1 < e) (h : m2e fuel e M = some R) :
+    |e * Real.sinh R - R - M| < 8 * e * Real.cosh R * m2eTol ^ 2 := by
+  obtain ⟨Y, X, hR, hY, hd⟩ := m2e_exit fuel e M R h
   have hne1 : ¬ e < 1 := not_lt.mpr h1.le
+  have hMr : m2eReduced e M = M := by simp only [m2eReduced, if_neg hne1]
+  simp only [m2eFinish, if_neg hne1] at hR
+  subst hR
+  rw [hMr] at hY
   have hD : 0 < e * Real.cosh X - 1 := by nlinarith [Real.one_le_cosh X]
-  simp only [m2eNext, if_neg hne1, cosh, sinh] at hR
-  refine ⟨X, hR, hd, ?_⟩
-  have hstep : (R - X) * (e * Real.cosh X - 1) = M - e * Real.sinh X + X := by
-    rw [hR]; field_simp; ring
-  rw [← hstep, abs_mul, abs_of_pos hD]
-  gcongr
+  simp only [m2eNext, if_neg hne1, cosh, sinh] at hY
+  set d := R - X with hdd
+  have hstep : d * (e * Real.cosh X - 1) = M - e * Real.sinh X + X := by
+    rw [hdd, hY]; field_simp; ring
+  have hd1 : |d| ≤ 1 := le_trans hd.le m2eTol_le
+  have hrem := Hyp.abs_sinh_add_sub_le (X := X) hd1
+  have hRX : R = X + d := by rw [hdd]; ring
+  have key : e * Real.sinh R - R - M = e * (Real.sinh (X + d) - Real.sinh X - d * Real.cosh X) := by
+    rw [← hRX]; linear_combination hstep
+  rw [key, abs_mul, abs_of_pos (by linarith : (0 : ℝ) < e)]
+  have h4 := Hyp.cosh_le_four_mul (X := X) (R := R) hd1
+  have hd2 : d ^ 2 < m2eTol ^ 2 := by
+    have := abs_nonneg d
+    rw [← sq_abs d]; exact pow_lt_pow_left₀ hd (abs_nonneg d) (by norm_num)
+  have hcX := Real.cosh_pos X
+  have hcR := Real.cosh_pos R
+  have he0 : (0 : ℝ) < e := by linarith
+  calc e * |Real.sinh (X + d) - Real.sinh X - d * Real.cosh X|
+      ≤ e * (2 * Real.cosh X * d ^ 2) := by gcongr
+    _ ≤ e * (2 * (4 * Real.cosh R) * d ^ 2) := by gcongr
+    _ < e * (2 * (4 * Real.cosh R) * m2eTol ^ 2) := by gcongr
+    _ = 8 * e * Real.cosh R * m2eTol ^ 2 := by ring
+
+/-- **mean → eccentric → mean, hyperbola**: the mean anomaly is reproduced within `8·e·cosh H·tol²`. -/
+theorem mean_ecc_mean_hyperbolic (fuel : Nat) (mu a e i Ω ω M : ℝ) (h1 : 1 < e) (c : List ℝ)
+    (h : meanToEcc fuel mu a e i Ω ω M = some c) :
+    ∃ H M', c = [a, e, i, Ω, ω, H] ∧ app6 eccToMean mu c = [a, e, i, Ω, ω, M'] ∧
+      |M' - M| < 8 * e * Real.cosh H * m2eTol ^ 2 := by
+  have hne1 : ¬ e < 1 := not_lt.mpr h1.le
+  simp only [meanToEcc, Option.map_eq_some_iff] at h
+  obtain ⟨R, hR, rfl⟩ := h
+  refine ⟨R, e * Real.sinh R - R, rfl, ?_, m2e_residual_hyperbolic fuel e M R h1 hR⟩
+  simp only [app6, eccToMean, if_neg hne1, sinh]
+
+/-- **eccentric → mean → eccentric, hyperbola**: `H ↦ e sinh H − H` expands distances by at least `e − 1`, so the
+hyperbolic anomaly returned by the solver is within `8·e·cosh H'·tol²/(e−1)` of the original one, for every `H`. -/
+theorem ecc_mean_ecc_hyperbolic (fuel : Nat) (mu a e i Ω ω H : ℝ) (h1 : 1 < e) (c : List ℝ)
+    (h : (match eccToMean mu a e i Ω ω H with
+          | [a, e, i, Ω, ω, M] => meanToEcc fuel mu a e i Ω ω M
+          | _ => none) = some c) :
+    ∃ H', c = [a, e, i, Ω, ω, H'] ∧ |H' - H| < 8 * e * Real.cosh H' * m2eTol ^ 2 / (e - 1) := by
+  have hne1 : ¬ e < 1 := not_lt.mpr h1.le
+  simp only [eccToMean, if_neg hne1, sinh, meanToEcc, Option.map_eq_some_iff] at h
+  obtain ⟨R, hR, rfl⟩ := h
+  refine ⟨R, rfl, ?_⟩
+  have hres := m2e_residual_hyperbolic fuel e _ R h1 hR
+  have hexp := Hyp.kepler_hyp_expanding (e := e) (a := R) (b := H) h1.le
+  have h1e : 0 < e - 1 := by linarith
+  rw [lt_div_iff₀ h1e]
+  have : e * Real.sinh R - R - (e * Real.sinh H - H) = (e * Real.sinh R - R) - (e * Real.sinh H - H) := by ring
+  rw [this] at hres
+  nlinarith
 
 /-! ## invariance under the circle relation -/
 
@@ -704,7 +797,12 @@ example : (0 : ℝ) < 1 * (1 - (1 / 2) ^ 2) ∧ (0 : ℝ) < 1 + 1 / 2 * Real.cos
 example : (0 : ℝ) < (-1) * (1 - 2 ^ 2) := by norm_num
 /-- the Kepler loop does return values: `M2E(0, 0) = 0` after one test of the exit condition -/
 example : m2e 1 0 0 = some 0 := by
-  simp [m2e, m2eLoop, m2eStart, m2eNext, m2eContinue, m2eTol]
+  have hfl : ⌊(0 + Real.pi) / (2 * Real.pi)⌋ = 0 := by
+    rw [Int.floor_eq_iff]; have := Real.pi_pos
+    constructor
+    · simp; positivity
+    · simp; rw [div_lt_one (by positivity)]; linarith
+  simp [m2e, m2eLoop, m2eStart, m2eNext, m2eContinue, m2eTol, m2eReduced, m2eExtra, m2eFinish, floorR, hfl]
   norm_num
 
 end BeyondVerif.C01
